@@ -251,8 +251,16 @@ func (s *Sched) Step(t *Task) string {
 // stack dump ("semacquire", "select", "running", ...), "" if it is gone, and
 // the call chain it sits in (function names only).
 func goroutineWaitState(g uint64) (string, string) {
-	buf := make([]byte, 512<<10)
-	n := runtime.Stack(buf, true)
+	n, size := 0, 256<<10
+	var buf []byte
+	for {
+		buf = make([]byte, size)
+		n = runtime.Stack(buf, true)
+		if n < size || size >= 64<<20 {
+			break
+		}
+		size *= 4 // the dump was cut off: the goroutine looked for may be beyond the end
+	}
 	dump := string(buf[:n])
 	key := "goroutine " + strconv.FormatUint(g, 10) + " ["
 	i := strings.Index(dump, key)
